@@ -18,6 +18,8 @@ import (
 // C09 — profile subject constraints are enforced, and only those.
 
 type c09Case struct {
+	// pipe: 1 the profile file, 2 the constrained entity's configuration file, 3 both are symbolic links to files kept in another directory (binary, native directory)
+	Linked int `json:"linked,omitempty"`
 	Kind       string   `json:"kind"` // "pure" | "pipe"
 	HasList    bool     `json:"hasList"`
 	Attrs      []string `json:"attrs"`
@@ -150,6 +152,11 @@ func c09Enumerate(tier string, yield func(any)) {
 					c2 := c
 					c2.Settled, c2.Strat = true, st
 					yield(&c2)
+				}
+				for l := 1; l <= 3; l++ {
+					c4 := c
+					c4.Linked = l
+					yield(&c4)
 				}
 			}
 		}
@@ -385,6 +392,54 @@ func c09API(x *engine.Ctx, c *c09Case) {
 	x.Outcome("api")
 }
 
+// c09PipeLinked: the same chain on a native directory, run by the binary, where the profile file and/or the
+// constrained entity's configuration file is a symbolic link to a file kept elsewhere (a profile shared by several
+// trees). The files are read through the links: an allowed subject is certified, a forbidden one stops the run
+// before anything is written.
+func c09PipeLinked(x *engine.Ctx, c *c09Case, d *Dir, w *simfs.World, prof *refcfg.ProfileCfg) {
+	w.Symlinks = map[string]string{}
+	move := func(p, to string) {
+		f := w.Files[p]
+		w.PutAt(to, f.Data, f.Tick)
+		w.Remove(p)
+		w.Symlinks[p] = to
+	}
+	if c.Linked&1 != 0 {
+		move(prof.Path, "shared/profile-p.tpl")
+	}
+	if c.Linked&2 != 0 {
+		move(d.Certs[c.Pos].Path, "shared/entity.conf")
+	}
+	before := w.Clone()
+	res, err := drive.RunCLI(w, drive.Default, "y\n")
+	if err != nil {
+		x.Cap("cli: " + err.Error())
+		return
+	}
+	x.TraceValidated(1)
+	x.Transition(1)
+	x.Nontrivial(fmt.Sprintf("pipe-linked %v %v %v %v %d %d", c.Attrs, c.Optional, c.AllowOther, c.Subject, c.Pos, c.Linked))
+	want, _, reason := c09Model(c, c.Subject)
+	what := []string{"", "the profile file is a symbolic link", "the entity's configuration file is a symbolic link", "profile and configuration file are symbolic links"}[c.Linked]
+	target := ArtifactPath(d.Certs[c.Pos].Path)
+	_, written := w.Files[target]
+	if want {
+		x.Outcome("pipe-linked accept")
+		if res.Exit != 0 || !written {
+			x.Violation(c09Class(true, false, reason, c.AllowOther)+" (binary, linked files)", fmt.Sprintf("%s; subject %q allowed by profile %v/%v allowOther=%v, yet exit=%d, %s exists=%v: %s", what, c09SubjectString(c.Subject), c.Attrs, c.Optional, c.AllowOther, res.Exit, target, written, short(res.Stdout+res.Stderr, 300)))
+		}
+		return
+	}
+	x.Outcome("pipe-linked reject:" + reason)
+	if res.Exit == 0 {
+		x.Violation(c09Class(false, true, reason, c.AllowOther)+" (binary, linked files)", fmt.Sprintf("%s; subject %q violates profile %v/%v allowOther=%v (%s), yet the binary ended with exit 0 (%s exists=%v)", what, c09SubjectString(c.Subject), c.Attrs, c.Optional, c.AllowOther, reason, target, written))
+		return
+	}
+	if df := simfs.Diff(before, w); len(df) != 0 {
+		x.Violation("C09/wrote-before-reject (binary, linked files)", fmt.Sprintf("%s; rejected certificate at position %d, yet files changed: %v", what, c.Pos, df))
+	}
+}
+
 func c09Pipe(x *engine.Ctx, c *c09Case) {
 	d := &Dir{}
 	prof := &refcfg.ProfileCfg{Path: "prof.yaml", Name: "p", SubjAttrs: &refcfg.SubjectAttributes{}}
@@ -448,6 +503,10 @@ func c09Pipe(x *engine.Ctx, c *c09Case) {
 		}
 		w.ReadFaults = map[string]int{prof.Path: c.ReadFault - 1}
 	}
+	if c.Linked > 0 {
+		c09PipeLinked(x, c, d, w, prof)
+		return
+	}
 	before := w.Clone()
 	res := drive.Run(w, strat, nil)
 	want, _, reason := c09Model(c, c.Subject)
@@ -495,7 +554,7 @@ func init() {
 	register(&engine.Check{
 		ID:          "C09",
 		Level:       "model_checking",
-		Rule:        "every profile = (attribute list of length 0..4 over {CN,O,C,1.2.3.4} x optional flag) x allowOther, plus the absent list (9363 profiles) x every subject of length 0..5 over {CN,O,C,1.2.3.4,L} (3905), and the same product over {1.2.3.4, 2.5.4.97, CN} with subjects over those plus L (3108 profiles x 1364 subjects): config.Validate on the real parsed RDN sequence vs. the reference predicate transcribed from the statement, one profile object shared by all its subjects as in a run and compared with its definition after every verdict, every verdict asked for twice on the same objects; plus 7 profiles x 9 subjects x 3 positions of the constrained entity in a root->mid->leaf chain through the whole file pipeline (rejected => planning error, empty write log), on a fresh directory, with a 60 / 80 / 300 KiB comment block in the profile file in front of its subject rules or at its top, and on a directory first generated under a profile of the same name without subject rules and then run with default / -m only / all four reasons / -a; the same 7 x 9 through db.AddAndSign (a settled entity fetched, pointed at the profile and signed again with overwrite; a new alias under the profile, also with the profile registered through AddProfile and with a profile that has no subject rules): a rejected certificate gives an error and no artifact is written or changed; and three forbidden subjects with the read of the profile file breaking off after every possible number of bytes (the subject must not be certified, whatever arrived). Pairs are distinct by construction; states = profiles, transitions = Validate calls / runs",
+		Rule:        "every profile = (attribute list of length 0..4 over {CN,O,C,1.2.3.4} x optional flag) x allowOther, plus the absent list (9363 profiles) x every subject of length 0..5 over {CN,O,C,1.2.3.4,L} (3905), and the same product over {1.2.3.4, 2.5.4.97, CN} with subjects over those plus L (3108 profiles x 1364 subjects): config.Validate on the real parsed RDN sequence vs. the reference predicate transcribed from the statement, one profile object shared by all its subjects as in a run and compared with its definition after every verdict, every verdict asked for twice on the same objects; plus 7 profiles x 9 subjects x 3 positions of the constrained entity in a root->mid->leaf chain through the whole file pipeline (rejected => planning error, empty write log), on a fresh directory, with a 60 / 80 / 300 KiB comment block in the profile file in front of its subject rules or at its top, on a native directory run by the binary where the profile file, the constrained entity's configuration file or both are symbolic links to files kept elsewhere, and on a directory first generated under a profile of the same name without subject rules and then run with default / -m only / all four reasons / -a; the same 7 x 9 through db.AddAndSign (a settled entity fetched, pointed at the profile and signed again with overwrite; a new alias under the profile, also with the profile registered through AddProfile and with a profile that has no subject rules): a rejected certificate gives an error and no artifact is written or changed; and three forbidden subjects with the read of the profile file breaking off after every possible number of bytes (the subject must not be certified, whatever arrived). Pairs are distinct by construction; states = profiles, transitions = Validate calls / runs",
 		Bound:       map[string]string{"profile length": "<=4", "subject length": "<=5", "alphabet": "3 short names + 1 custom OID + 1 foreign attribute"},
 		Assumptions: []string{"profile attributes that the schema allows but no table resolves (PC, DC, T, UID, MAIL) are outside the statement"},
 		Budget:      budgets(quickBudget, thoroughBudget),
